@@ -470,11 +470,20 @@ fn check_tx_validity<C: ContentAddrStore>(
     Ok(())
 }
 
+/// `melpow::Proof::verify` looks nodes up in the proof without checking that they are there (and shifts by 64 at
+/// difficulty 0): on a proof that lacks nodes it panics instead of answering. Such a proof proves nothing.
+fn verify_melpow<H: melpow::HashFunction>(proof: &Proof, puzzle: &HashVal, difficulty: u32, h: H) -> bool {
+    std::panic::catch_unwind(std::panic::AssertUnwindSafe(|| {
+        proof.verify(puzzle, difficulty as _, h)
+    }))
+    .unwrap_or(false)
+}
+
 fn proof_is_tip910(proof: Proof, puzzle: &HashVal, difficulty: u32) -> Result<bool, StateError> {
     // try verifying the proof under the old and the new system
-    if proof.verify(puzzle, difficulty as _, LegacyMelPowHash) {
+    if verify_melpow(&proof, puzzle, difficulty, LegacyMelPowHash) {
         Ok(false)
-    } else if proof.verify(puzzle, difficulty as _, Tip910MelPowHash) {
+    } else if verify_melpow(&proof, puzzle, difficulty, Tip910MelPowHash) {
         Ok(true)
     } else {
         Err(StateError::InvalidMelPoW)
